@@ -1,6 +1,6 @@
 (* Extract/ExC16.v -- extraction of the C16 model (affine algebra, named constructors) to OCaml. *)
 From Coq Require Import Extraction ExtrOcamlBasic ExtrOcamlString.
-From AT Require Import Num Vec Aff Farkas FM Equiv PTree Cells Abs Poly AffOps.
+From AT Require Import Num Vec Aff Farkas FM Equiv PTree Cells Abs Poly AffOps AffOps2.
 Extraction Blacklist List String Int.
 Extraction "model_c16.ml"
   qc_of_float qz qfrac qleb qltb qeqb qabs Qcplus Qcmult Qcopp Qcminus Qcdiv
@@ -17,4 +17,5 @@ Extraction "model_c16.ml"
   c_slice c_translation
   compose_rs stack_rs aop_rs adiv_rs arem_rs qrem negate
   view to_owned as_polytope as_function poly_new convert_to
-  row_rs row_iter from_row_iter_rs remove_rows_rs remove_zero_rows remove_zero_columns.
+  row_rs row_iter from_row_iter_rs remove_rows_rs remove_zero_rows remove_zero_columns
+  apply_transpose_rs reset_row_rs.
